@@ -175,12 +175,43 @@ func runC06(c flowCase) Verdict {
 	reached := m.stats.errs > 0
 	after := 0
 	if reached {
-		// the runner must remain usable: further calls return something and never panic
+		// the runner must remain usable: further calls return something and never panic - whatever argument is passed
+		// while no choice is pending (documented as ignored), which must not influence the continuation either
+		twin, err := newHost(srcs, "abc", vars)
+		if err != nil {
+			return failf("generated script does not load the second time: %v\n%s", err, script)
+		}
+		twin.drive(c.Choices, nil, flowMaxEv, true)
+		nch, nct := 0, 0
 		for i := 0; i < 12; i++ {
-			ev := h.step(0)
+			arg, argTwin := hostileArgs[(i+len(c.Choices))%len(hostileArgs)], 0
+			if h.lastOpt > 0 {
+				arg = 0
+				if len(c.Choices) > 0 {
+					arg = c.Choices[nch%len(c.Choices)]
+				}
+				nch++
+				arg = ((arg % h.lastOpt) + h.lastOpt) % h.lastOpt
+			}
+			if twin.lastOpt > 0 {
+				if len(c.Choices) > 0 {
+					argTwin = c.Choices[nct%len(c.Choices)]
+				}
+				nct++
+				argTwin = ((argTwin % twin.lastOpt) + twin.lastOpt) % twin.lastOpt
+			}
+			ev := h.step(arg)
+			evTwin := twin.step(argTwin)
 			after++
 			if ev.K == "panic" {
-				return failf("Next panicked on call %d after an error: %s\nscript:\n%s\nchoices %v\ntrace:\n%s", i+1, ev.Text, script, c.Choices, showTrace(h.trace))
+				return failf("Next(%d) panicked on call %d after an error: %s\nscript:\n%s\nchoices %v\ntrace:\n%s", arg, i+1, ev.Text, script, c.Choices, showTrace(h.trace))
+			}
+			if evTwin.K == "panic" {
+				return failf("Next(%d) panicked on call %d after an error: %s\nscript:\n%s\nchoices %v\ntrace:\n%s", argTwin, i+1, evTwin.Text, script, c.Choices, showTrace(twin.trace))
+			}
+			if !sameEv(ev, evTwin) {
+				return failf("after an error the continuation depends on the argument of Next although no choice was pending: call %d with %d gave %s, with %d gave %s\nscript:\n%s\nchoices %v\ntrace:\n%s",
+					i+1, arg, ev.String(), argTwin, evTwin.String(), script, c.Choices, showTrace(h.trace))
 			}
 			if ev.K == "end" {
 				break
@@ -195,6 +226,9 @@ func runC06(c flowCase) Verdict {
 	}
 	return Verdict{NonTrivial: reached, Classes: cls}
 }
+
+// hostileArgs are passed to Next when no choice is pending.
+var hostileArgs = []int{5, -1, 0, 1 << 40, 2, math.MinInt64, 1}
 
 var faultScriptOpts = scriptOpts{maxNodes: 4, maxDepth: 3, maxBody: 4, forwardOnly: true, tracking: true, extraStmt: func(g *scriptGen, depth int) *Stmt {
 	if rapid.IntRange(0, 2).Draw(g.t, "inject") != 0 {
